@@ -49,8 +49,11 @@ func WalkNodes(root *html.Node, fnVisit func(*html.Node) bool, fnExit func(*html
 		return
 	}
 
-	for child := root.FirstChild; child != nil; child = child.NextSibling {
+	for child := root.FirstChild; child != nil; {
+		// The visitor may detach the child, so fetch its sibling first.
+		next := child.NextSibling
 		WalkNodes(child, fnVisit, fnExit)
+		child = next
 	}
 
 	if fnExit != nil {
